@@ -37,7 +37,7 @@ type panicSite struct {
 func runC02(c *Ctx, tier string) {
 	r := NewReport("C02", "other", tier, c)
 	r.Explanation = "The full statement (no panic for any byte string the parsers accept) is not statically decidable here: most accesses are safe because of post-conditions of the zcrypto / x-crypto parsers that an analysis of zlint cannot see. What is decided is a LEDGER of panic obligations that is complete, by construction, for the classes it covers in packages zlint, lint, util and lints/*: P1 every index or slice expression whose bounds check the Go compiler's prove pass cannot eliminate (go build -gcflags=-d=ssa/check_bce/debug=1, replayed from a private build cache; each reported position is mapped to its enclosing function and expression); P2 every type assertion without comma-ok; P3 every explicit panic in code reachable from a lint method; P4 every integer division or remainder by a non-constant in such code; P5 every dereference of the result of util.GetExtFromCert (nil when the extension is absent). Each obligation must be discharged by (a) precondition pairing decided from the lint's own CheckApplies decision table — Execute asserts c.PublicKey.(T) only if every applicable path saw the comma-ok assertion to T succeed; GetExtFromCert(c, X) is dereferenced only if every applicable path saw IsExtInCert(c, X) for the same OID —, (b) a dominating nil test of the same value, or (c) a reviewed line of /verif/ledger/C02.txt (key = class|function|expression, one-line argument, typically a parser invariant). An obligation with none of the three is a violation, so dropping `ok &&` from a CheckApplies, removing a length test the compiler relied on, or adding an unguarded x[0] to a new lint is reported with its site. NOT decided: that the ledger's arguments are true (human review against the parser source), panics inside library callees, stack or memory exhaustion."
-	r.Rule("P1 bounds (compiler prove pass); P2 unchecked assertions; P3 explicit panics; P4 division; P5 nil-able extension deref; P6 pointer result used although the call's error was discarded; P7 library callee that indexes its argument unconditionally (length requirement derived from the callee's SSA); P8 dereference of a pointer-typed field of a library struct (nil when the parser did not set it): dominating nil test, reviewed always-set table, ParsedDomain/ParseError pairing, or extension pairing; discharge = CheckApplies pairing | dominating guard | reviewed ledger line")
+	r.Rule("P1 bounds (compiler prove pass); P2 unchecked assertions; P3 explicit panics; P4 division; P5 nil-able extension deref; P6 pointer result used although the call's error was discarded; P7 library callee that indexes its argument unconditionally (length requirement derived from the callee's SSA); P9 call of a library function that contains an explicit panic for some arguments (set derived from the callees' SSA; discharged by a reviewed table of callees whose panics no argument can reach, or a ledger line); P8 dereference of a pointer-typed field of a library struct (nil when the parser did not set it): dominating nil test, reviewed always-set table, ParsedDomain/ParseError pairing, or extension pairing; discharge = CheckApplies pairing | dominating guard | reviewed ledger line")
 	r.Trusted = []string{"the Go compiler's prove pass (bounds-check elimination)", "go/ssa", "the reviewed arguments in ledger/C02.txt", "zcrypto / x-crypto parser post-conditions quoted there"}
 	r.Assumptions = []string{"panics inside library functions called with unusual arguments are outside the ledger", "the ledger's one-line arguments were reviewed by reading; they are not re-proved"}
 
@@ -685,6 +685,7 @@ func c02SSA(c *Ctx, cs *Census, reach map[*ssa.Function]bool) []*panicSite {
 			case *ssa.Call:
 				if reach[f] {
 					out = append(out, calleeLenSites(f, x, posStr)...)
+					out = append(out, libPanicSites(f, x, posStr)...)
 				}
 				if staticCalleeName(&x.Call) != "util.GetExtFromCert" {
 					if s := errIgnoredDeref(f, x, posStr); s != nil {
